@@ -202,8 +202,10 @@ def random_case(draw):
                           start=draw(st.sampled_from([1, 1, 27, 997, 2500]))))  # fmt: skip
     ch["seq"] = seq
     ch["ter"] = True
-    pka = [[i, draw(st.integers(0, 14000)) / 1000.0] for i, nm in enumerate(seq) if nm in TIT and draw(st.integers(0, 9)) < 9]
-    phs = [draw(st.integers(0, 1400)) / 100.0 for _ in range(3)]
+    # (PROPKA reports pKa values beyond the pH scale for buried / bridged groups: 1AFS has 17.7)
+    pka = [[i, draw(st.one_of(st.integers(0, 14000), st.integers(0, 14000), st.integers(-4000, 19000))) / 1000.0]
+           for i, nm in enumerate(seq) if nm in TIT and draw(st.integers(0, 9)) < 9]
+    phs = [draw(st.one_of(st.integers(0, 1400), st.sampled_from([0, 1400, 700]))) / 100.0 for _ in range(3)]
     if pka:
         one = pka[draw(st.integers(0, len(pka) - 1))][1]
         phs.append(min(14.0, max(0.0, round(one + draw(st.sampled_from([0.0, 0.002, -0.002, 0.004, -0.004])), 4))))
